@@ -26,10 +26,11 @@ CONFIG = {
         "strconv.QuotedPrefix/Unquote is modelled for quoted strings without backslash and without bytes >= 0x80 (other headers are UNJUDGED in the correspondence and outside C16_no_cross_host only through parse_challenge, which the theorems treat as an arbitrary function of the header)",
         "encoding/json, encoding/base64, net/url query/form encoding of the token requests are observed by the harness (decoded on the fake token server) but not modelled",
         "syncutil.Once: the Go select/channel semantics are the LTS of Model/Once.v (buffered-1 channel holding true / empty / closed); runtime scheduling is quantified over as arbitrary interleavings of the visible events; panics inside f are not modelled",
-        "concurrentCache.Set under concurrency is the transition system of Model/CacheSet.v (status map, Once instances, results; status.Delete over-approximated); it is tied to the code by the harness oracle (set-cross-key) only, not by a trace correspondence: sync.Map internals are not observable without editing cache.go",
+        "concurrentCache.Set under concurrency is the transition system of Model/CacheSet.v (status map, Once instances, results; status.Delete over-approximated). Recorded executions of Set (direct and inside concurrent Client.Do mixes) are accepted by the extracted system: fetch start/end, delivered results and the identity of the in-flight entry (hook VerifInFlight) are observed; LoadOrStore/Delete are hidden and placed by the harness at the latest point the observations allow (documented in harness/cmd/c16/settrace.go)",
+        "executions in which a delivered token/error cannot be attributed to exactly one fetch (Basic tokens, static access tokens, sentinel errors) are not judged by the Set trace acceptor (counted as settrace/*/unjudged)",
     ],
     "level_text": "Coq theorems: CleanScopes is sorted, duplicate-free, idempotent, depends only on the set of its input (order/duplication/map-iteration-order insensitive) and '*' absorbs, for all byte strings; over every history of Client.Do calls with any cache flavour, credential table and server behaviour every send goes to the request's host or to a realm that host advertised and carries only that host's secrets, a Basic header reaches a host only after its Basic challenge, the cache stays host-tainted; <= 3 registry sends and <= 1 token fetch per call with a complete classification of non-success outcomes (valid credentials => the registry's non-401 answer); cache-key laws for the shared and the single-context cache; syncutil.Once as an LTS: one published result shared by all receivers, one fetch in flight, hand-over on cancellation",
-    "level_note": "two defects fixed in CleanScopes (duplicates of unparsable scopes; single-scope fast path disagreeing with the general path); the concurrent use of the cache and the Go runtime are exercised, not proved; strconv.Unquote escapes are outside the challenge model",
+    "level_note": "four defects fixed (two in CleanScopes, two in the single-context cache's Set) (duplicates of unparsable scopes; single-scope fast path disagreeing with the general path); concurrent Set executions are accepted by the CacheSet transition system (hidden map operations placed by the harness); the Go runtime is exercised, not proved; strconv.Unquote escapes are outside the challenge model",
     "technique": "machine-checked proof in Coq (invariants over histories, trace-acceptor LTS for Once, canonical-form algebra for scope sets) + translator-regenerated anchors/constants + model/implementation correspondence + independent oracle",
     "explanation": "theorems about executable models of scope.go, challenge.go, client.go, cache.go and syncutil/once.go; the extracted models are run against the real code on generated scope lists, challenge headers, request histories over 2-4 in-process registries/token servers with marker secrets, and Once traces; an independent oracle scans every outgoing request for foreign secrets and checks budget, validity, algebraic laws of CleanScopes and result sharing",
 }
